@@ -201,6 +201,9 @@ def run_unit(unit_path, repo, verif_root, build_root, do_twin=True, rlimit=None)
     res["generated"] = gen_path
     res["trusted"] = scan_trusted(gen_text)
     log_dir = os.path.join(bdir, "log")
+    # solver budget: three times Verus' default (a query that needs more than a third of this is reported as a
+    # slow query in the evidence; exhausting the budget is "undecided", never an alarm)
+    rlimit = rlimit or unit.get("rlimit", 30)
     r = run_verus(gen_path, log_dir=log_dir, rlimit=rlimit)
     res["checker_cmd"] = r["cmd"]
     res["wall_s"] = r["wall"]
